@@ -54,4 +54,35 @@ theorem silent_parse_is_a_complete_linear_tree7 (combs : List PosComb) (body : L
   refine ⟨r, hr, hlin, ?_⟩
   simpa using hcomp
 
+/-- php5: the same, for runs that do not reduce one of the four productions the linearity analysis does not follow
+    (68, 69: `foreach` with a `list()` target; 436, 440: member chains that take a list apart) -/
+theorem silent_parse_is_a_complete_linear_tree5_partial (combs : List PosComb) (body : List TokKey) (e : TokKey)
+    (he : e.id = 0) (hb : ∀ k ∈ body, k.id ≠ 0) (s : YYSt V TreeSt)
+    (h : parseModel Gen.tables5 combs (mkPathTable Gen.terms5) (body ++ [e]).toArray = .ok (some 0, s))
+    (hs : noSaw s.trace) (hnb : ¬ usedBad Linear.bad5 s.trace) :
+    ∃ r, s.aux.root = some r ∧ Linear.LinearRoot r ∧ (shiftIdx s.trace).reverse = List.range body.length := by
+  have hroot := Root.accepted_parse_has_root5 combs _ s h
+  obtain ⟨r, hr⟩ := Option.isSome_iff_exists.mp hroot
+  have hrun := h
+  unfold parseModel at hrun
+  simp only [List.map_append, List.map_cons, List.map_nil, he] at hrun
+  rw [yyRun_input_congr Gen.tables5 _ _ ((body.map (·.id)).toArray) (ids_congr (body.map (·.id)))] at hrun
+  have hin : ∀ i (hi : i < ((body.map (·.id)).toArray).size), ((body.map (·.id)).toArray)[i] ≠ 0 := by
+    intro i hi
+    simp only [List.getElem_toArray, List.getElem_map]
+    exact hb _ (List.getElem_mem _)
+  have e5 : Gen.tables5 = Gen.tables5L.toArr := rfl
+  rw [e5] at hrun
+  have hcomp := yyRun_complete (tl := Gen.tables5L) (eofFacts_spec C06.eof_facts5) hin _ _ _ s (yyInit_cinv _ _) hrun hs
+  have hne := silent_no_errShift (tl := Gen.tables5L) (eofFacts_spec C06.eof_facts5) hin _ _ _ (some 0) s (yyInit_cinv _ _)
+    (by intro hx; obtain ⟨x, hx⟩ := hx; simp [yyInit] at hx) hrun hs
+  have hexc : ¬ Exc Linear.bad5 s.trace := by
+    intro hx
+    rcases hx with hx | hx
+    · exact hne hx
+    · exact hnb hx
+  have hlin := Linear.parsed_tree_is_linear5_partial Gen.tables5 combs _ (some 0) s h hexc r hr
+  refine ⟨r, hr, hlin, ?_⟩
+  simpa using hcomp
+
 end PhpVerif.Silent
